@@ -6,6 +6,7 @@
 pub mod account_world;
 pub mod eventlog_world;
 pub mod summary;
+pub mod sync_world;
 pub mod term;
 pub mod tree_world;
 pub mod values;
